@@ -8,8 +8,11 @@
 (* core) send {admitted, blocked} x {handler ok, error, panic} through     *)
 (* every exported entry point and record ONE ndjson line per request:      *)
 (*   op "req", tr, adapter, ep (entry point), variant (options used),      *)
-(*   cls = [wraps, errsig, fb, outcome, side, flow, sys]  what the driver  *)
-(*            arranged: side = what the entry point is (server / client),  *)
+(*   cls = [wraps, errsig, fb, outcome, layer, side, flow, sys]  what the  *)
+(*            driver arranged: layer = where the error of the wrapped call *)
+(*            arises (client side: the downstream call fails before a node *)
+(*            is called / at the node / in a retry hook; the driver's name *)
+(*            of the exact place is in field oc), side = what the entry point is (server / client),  *)
 (*            flow = a flow rule with threshold 0 sits on the resource the *)
 (*            request is meant to hit, sys = "violated" (a system rule is  *)
 (*            loaded and violated while the request is sent: Concurrency 1 *)
@@ -59,7 +62,8 @@ InbOK(e) == /\ e.inb = 0
             /\ (Admitted(e.events) /\ e.inbh # -1) => e.inbh = InboundShare(e.cls)
 
 Why(e) == LET d == Diagnose(e.events, e.cls) IN
-          IF d # "" THEN d
+          IF ~LayerOK(e.cls) THEN "malformed-class"
+          ELSE IF d # "" THEN d
           ELSE IF ~BTypeOK(e) THEN "wrong-block-type"
           ELSE IF e.conc # 0 THEN "gauge-not-back-to-zero"
           ELSE IF Admitted(e.events) /\ e.inbh # -1 /\ e.inbh # InboundShare(e.cls) THEN
@@ -74,7 +78,8 @@ Judge(ok, expected) ==
 
 TReq ==
     /\ l <= Len(Trace) /\ Ev.op = "req" /\ l' = l + 1
-    /\ Judge(/\ Accepts(Ev.events, Ev.cls)
+    /\ Judge(/\ LayerOK(Ev.cls)
+             /\ Accepts(Ev.events, Ev.cls)
              /\ BTypeOK(Ev)
              /\ Ev.conc = 0
              /\ InbOK(Ev)
